@@ -22,7 +22,6 @@ import (
 	componentdialer "github.com/daeuniverse/dae/component/outbound/dialer"
 	verifsim "github.com/daeuniverse/dae/internal/verifsim"
 	D "github.com/daeuniverse/outbound/dialer"
-	"github.com/daeuniverse/outbound/netproxy"
 	"github.com/sirupsen/logrus"
 )
 
@@ -65,12 +64,6 @@ type hWorld struct {
 	lastEnd time.Duration
 	endSeen bool
 	cmap    *ebpf.Map
-}
-
-type nopDialer struct{}
-
-func (nopDialer) DialContext(ctx context.Context, network, addr string) (netproxy.Conn, error) {
-	return nil, errors.New("not used")
 }
 
 func isUDP(nt *componentdialer.NetworkType) bool { return nt.L4Proto == consts.L4ProtoStr_UDP }
